@@ -55,3 +55,175 @@ def impl_c17(case, scratch):
         return {"outcome": "ok", "marked": marked, "classified": sorted(calls)}
     finally:
         close_ctx(ctx)
+
+
+# ---------------------------------------------------------------- C10
+def _row(p):
+    if p is None:
+        return None
+    return [p.title, p.namespace_id, p.redirect_to, p.body, p.model]
+
+
+def impl_c10(case, scratch):
+    ctx = new_ctx(scratch)
+    ctxs = [ctx]
+    outs = []
+    try:
+        for op in case["ops"]:
+            k = op[0]
+            if k == "add":
+                _, title, ns, body, red, model = op
+                ctx.add_page(title, ns, body=body, redirect_to=red, model=model)
+                outs.append(None)
+            elif k == "get":
+                outs.append(_row(ctx.get_page(op[1], op[2], op[3])))
+            elif k == "exists":
+                outs.append(ctx.page_exists(op[1], op[2]))
+            elif k == "body":
+                outs.append(ctx.get_page_body(op[1], op[2]))
+            elif k == "resolve":
+                outs.append(_row(ctx.get_page_resolve_redirect(op[1], op[2])))
+            elif k == "commit":
+                ctx.db_conn.commit()
+                outs.append(None)
+            elif k == "reopen":
+                ctx.db_conn.commit()
+                ctx = Wtp(db_path=ctx.db_path, quiet=True, quiet_output=True)
+                ctxs.append(ctx)
+                outs.append(None)
+        return {"outcome": "ok", "outs": outs}
+    finally:
+        for c in ctxs[1:]:
+            try:
+                c.db_conn.close()
+            except Exception:
+                pass
+        close_ctx(ctxs[0])
+
+
+# ---------------------------------------------------------------- Lua helpers
+USTRING_STUB = """
+local u = {}
+for k, v in pairs(string) do u[k] = v end
+u.codepoint = string.byte
+u.toNFC = function(s) return s end
+u.toNFD = function(s) return s end
+u.toNFKC = function(s) return s end
+u.toNFKD = function(s) return s end
+u.isutf8 = function(s) return true end
+return u
+"""
+
+ECHO_MODULE = r"""
+local export = {}
+local function q(v)
+  return (tostring(v):gsub("[%z\1-\31\\|=;%%]", function(c) return string.format("%%%02X", c:byte()) end))
+end
+local function dump(args)
+  local keys = {}
+  for k, _ in pairs(args) do table.insert(keys, k) end
+  table.sort(keys, function(a, b)
+    if type(a) == type(b) then return a < b end
+    return type(a) == "number"
+  end)
+  local out = {}
+  for _, k in ipairs(keys) do
+    table.insert(out, (type(k) == "number" and "n" or "s") .. q(k) .. "=" .. q(args[k]))
+  end
+  return table.concat(out, ";")
+end
+function export.main(frame) return "<<" .. dump(frame.args) .. ">>" end
+function export.parent(frame)
+  local p = frame:getParent()
+  if p == nil then return "<<noparent>>" end
+  return "<<" .. q(p:getTitle()) .. "|" .. dump(p.args) .. ">>"
+end
+function export.title(frame) return "<<" .. q(frame:getTitle()) .. ">>" end
+function export.preprocess(frame) return "<<" .. frame:preprocess(frame.args[1]) .. ">>" end
+function export.expandtemplate(frame)
+  local a = {}
+  for k, v in pairs(frame.args) do if k ~= "title" then a[k] = v end end
+  return "<<" .. frame:expandTemplate{title = frame.args.title, args = a} .. ">>"
+end
+function export.callpf(frame)
+  local a = {}
+  local i = 1
+  while frame.args[i] ~= nil do a[i] = frame.args[i]; i = i + 1 end
+  return "<<" .. frame:callParserFunction{name = frame.args.name, args = a} .. ">>"
+end
+return export
+"""
+
+
+def undump(s):
+    """Inverse of the echo module's dump(): list of [key, value] (int keys for numbers)."""
+    import re
+    def uq(x):
+        return re.sub(r"%([0-9A-F]{2})", lambda m: chr(int(m.group(1), 16)), x)
+    out = []
+    if s == "":
+        return out
+    for item in s.split(";"):
+        k, v = item.split("=", 1)
+        kk = uq(k[1:])
+        if k[0] == "n":
+            kk = float(kk)
+            kk = int(kk) if kk == int(kk) else kk
+        out.append([kk, uq(v)])
+    return out
+
+
+_lua_ctx = None
+
+
+def lua_ctx(scratch):
+    global _lua_ctx
+    if _lua_ctx is None:
+        ctx = new_ctx(scratch)
+        ctx.add_page("Module:ustring:ustring", 828, USTRING_STUB, model="Scribunto")
+        ctx.add_page("Module:echo", 828, ECHO_MODULE, model="Scribunto")
+        ctx.db_conn.commit()
+        _lua_ctx = ctx
+    return _lua_ctx
+
+
+# ---------------------------------------------------------------- C14
+def _keyed(d):
+    return [[k, v] for k, v in d.items()]
+
+
+def impl_c14(case, scratch):
+    ctx = lua_ctx(scratch)
+    args = case["args"]
+    src_args = "".join("|" + a for a in args)
+    ctx.start_page("Tt")
+    tree = ctx.parse("{{t" + src_args + "}}")
+    from wikitextprocessor.parser import NodeKind
+
+    def find(n):
+        if hasattr(n, "kind") and n.kind == NodeKind.TEMPLATE:
+            return n
+        for c in getattr(n, "children", []):
+            if not isinstance(c, str):
+                r = find(c)
+                if r is not None:
+                    return r
+        return None
+
+    node = find(tree)
+    pv = _keyed(node.template_parameters) if node is not None else None
+    got = []
+
+    def tfn(name, ht):
+        got.append(_keyed(ht))
+        return "X"
+
+    ctx.start_page("Tt")
+    ctx.expand("{{t" + src_args + "}}", template_fn=tfn)
+    ctx.start_page("Tt")
+    out = ctx.expand("{{#invoke:echo|main" + src_args + "}}")
+    lv = None
+    if out.startswith("<<") and out.endswith(">>"):
+        lv = undump(out[2:-2])
+    return {"outcome": "ok", "parser": pv, "expander": got[0] if got else None,
+            "lua": lv, "lua_raw": out if lv is None else None, "stack": list(ctx.expand_stack)}
